@@ -108,22 +108,23 @@ var documentedStatuses = map[int]bool{200: true, 400: true, 403: true, 404: true
 // ---------------------------------------------------------------- C10
 
 type c10Req struct {
-	Op     Op
-	At     time.Duration
-	Kind   string // update | malformed:<kind>
-	Body   []byte
-	Req    *Request
-	Want   string
-	St     Stored
-	Status int
-	CType  string
-	RBody  []byte
-	Calls  int
-	After  Stored
-	T      time.Time
-	Fault  string            // the storage fault that fired while this request was served ("" = none)
-	Snap   map[string]string // every configured log's latest checkpoint after the request
-	Logs   []string          // the witness's log list after the request
+	Op      Op
+	At      time.Duration
+	Kind    string // update | malformed:<kind>
+	Body    []byte
+	Req     *Request
+	Want    string
+	St      Stored
+	Status  int
+	CType   string
+	RBody   []byte
+	Calls   int
+	After   Stored
+	T       time.Time
+	Fault   string            // the storage fault that fired while this request was served ("" = none)
+	Overlap bool              // the request overlapped another one (c10Pairs): only the pair's final state is observable
+	Snap    map[string]string // every configured log's latest checkpoint after the request
+	Logs    []string          // the witness's log list after the request
 }
 
 func c10Malform(kind string, body []byte, r *Rng) []byte {
@@ -417,7 +418,7 @@ func oracleC10(p *Plan, r *c10Result) []Violation {
 		}
 		switch q.Want {
 		case "accept":
-			if q.After.Text != q.Req.Text {
+			if q.After.Text != q.Req.Text && !q.Overlap {
 				add("status_mismatch", "200_without_accept", i, fmt.Sprintf("request %d answered 200 but the witness does not hold the submitted checkpoint afterwards", i))
 			}
 			lines := strings.SplitAfter(string(q.RBody), "\n")
@@ -452,7 +453,7 @@ func oracleC10(p *Plan, r *c10Result) []Violation {
 				add("status_mismatch", q.Want+"_reached_witness", i, fmt.Sprintf("request %d (%s) was answered %d yet the witness was called", i, q.Kind, q.Status))
 			}
 		}
-		if q.Status != 200 && string(q.After.Raw) != string(q.St.Raw) {
+		if q.Status != 200 && string(q.After.Raw) != string(q.St.Raw) && !q.Overlap {
 			add("status_mismatch", "state_changed_on_refusal", i, fmt.Sprintf("request %d answered %d but the witness state changed", i, q.Status))
 		}
 	}
@@ -465,6 +466,41 @@ func init() {
 		Level: "exploration",
 		Rule:  "the real add-checkpoint handler (reached through the add-only -overlay constructor, built exactly as FeedBastion builds it) behind http.MaxBytesHandler(16 KiB), in front of the real witness through the real witnessAdapter, on both stores, inside a synctest bubble; seeded request sequences at seeded simulated instants: well-formed bodies for every verdict class in every state reached through the same endpoint, malformed variants (11 kinds), origins the endpoint does not list, bursts above the configured rate and silences; oracle: status table of c2sp.org/tlog-witness from the sequential model, cosignature body verified with the harness's verifier, 429 => witness not called, token-bucket upper bound ceil(r)+r*T over every window, service after 1/r of silence; non-trivial = a request that reached a witness holding a checkpoint, or a 429; distinct = distinct (verdict class, status, state class, store) tuples",
 		Gen: func(r *Rng, tier string, n uint64) *Plan {
+			if n%8 == 6 {
+				// requests that overlap inside the endpoint: pairs computed from the same state, the first held inside the witness
+				// while the second arrives (same checkpoint with another proof, a competing step, another log)
+				pf := Profile{MaxLogs: 2, ShareKeys: true, MinOps: 1, MaxOps: 4, Adversarial: 0.3, Mutations: 0}
+				p := &Plan{Scenario: "pairs"}
+				p.Cfg = genConfig(r, pf)
+				p.Cfg.Extra = map[string]int64{"rate": 1000000000}
+				p.Ops = genHistory(r, pf, &p.Cfg)
+				for k := r.Range(1, 3); k > 0; k-- {
+					l := r.IntN(len(p.Cfg.Logs))
+					a := genUpdate(r, Profile{Adversarial: 0.3, Mutations: 0}, l, len(p.Cfg.Logs[l].Forks)+1)
+					a.M, a.MV = "", 0
+					b := a
+					switch r.IntN(4) {
+					case 0: // the same checkpoint and old size with other proof lines
+						b.P, b.PV = Pick(r, "flip", "random", "empty", "long", "honest", "drop", "add"), r.Uint64()
+					case 1: // a competing step from the same old size
+						b = genUpdate(r, Profile{Adversarial: 0.3, Mutations: 0}, l, len(p.Cfg.Logs[l].Forks)+1)
+						b.M, b.MV = "", 0
+					case 2: // another log
+						b = genUpdate(r, Profile{Adversarial: 0.3, Mutations: 0}, r.IntN(len(p.Cfg.Logs)), 1)
+						b.B, b.M, b.MV = 0, "", 0
+					default: // the very same request twice
+					}
+					if r.Bool() {
+						a, b = b, a
+					}
+					a.C, b.C = 1, 0
+					p.Ops = append(p.Ops, a, b)
+					if r.Chance(0.5) {
+						p.Ops = append(p.Ops, Op{K: "update", L: l, D: uint64(r.Range(0, 3))})
+					}
+				}
+				return p
+			}
 			pf := Profile{MaxLogs: 3, ShareKeys: true, MinOps: 4, MaxOps: 16, Adversarial: 0.6, Mutations: 0.2, BigSizes: r.Chance(0.15)}
 			p := &Plan{Scenario: "bastion"}
 			p.Cfg = genConfig(r, pf)
@@ -510,12 +546,22 @@ func init() {
 		},
 		Run: func(t *testing.T, p *Plan) *Outcome {
 			out := &Outcome{Stats: newStats()}
-			r := c10Exec(t, p)
+			var r *c10Result
+			if p.Scenario == "pairs" {
+				r = c10Pairs(t, p)
+			} else {
+				r = c10Exec(t, p)
+			}
 			if r.infra != "" {
 				out.Infra = []string{r.infra}
 				return out
 			}
 			out.Viol = oracleC10(p, r)
+			for _, q := range r.reqs {
+				if q.Overlap {
+					out.Stats.Probes["overlapping_requests"]++
+				}
+			}
 			out.Stats.SimNanos = int64(r.simT)
 			var hs []string
 			for _, q := range r.reqs {
@@ -676,6 +722,9 @@ func init() {
 			r := NewRng(p.Seed ^ 0xc11)
 			only := p.Cfg.Notes["only"] // replay of one delivery: "<msg#>/<kind>/<offset>"
 			var back witness.Proof      // one receiver for all round trips: reading a proof must not depend on what the variable held before
+			var heldCP []byte           // what the parser returned for the previous body ...
+			var heldProof [][]byte
+			var heldWant c11Msg // ... and what it has to stay
 			deliver := func(body []byte, endAt, errAt, maxChunk int, chunkSeed uint64) (int, int) {
 				before := len(cw.calls)
 				rec := httptest.NewRecorder()
@@ -710,6 +759,35 @@ func init() {
 						}
 					}
 					out.Evals++
+				}
+				// the parser called directly (always executed: what an earlier call returned must stay what it was while later
+				// bodies are parsed - the handler still holds it while the witness works on it)
+				if len(body) <= 16*1024 {
+					po, pp, pc, perr := bastion.VerifParseBody(&faultyReader{data: body, chunks: NewRng(chunkSeed), maxChunk: 4096, endAt: -1, errAt: -1})
+					out.Evals++
+					switch {
+					case perr != nil:
+						return fail("roundtrip_mismatch", "parser_refused", fmt.Sprintf("%d/direct/0", mi), fmt.Sprintf("an intact well-formed body (old=%d, %d hashes, %d checkpoint bytes) was refused by the parser: %v", m.Old, len(m.Proof), len(m.CP), perr))
+					case po != m.Old || len(pp) != len(m.Proof) || !bytes.Equal(pc, m.CP):
+						return fail("roundtrip_mismatch", "parser", fmt.Sprintf("%d/direct/0", mi), fmt.Sprintf("wrote old=%d, %d hashes, %d checkpoint bytes; the parser returned old=%d, %d hashes, %d checkpoint bytes", m.Old, len(m.Proof), len(m.CP), po, len(pp), len(pc)))
+					}
+					for i := range pp {
+						if !bytes.Equal(pp[i], m.Proof[i]) {
+							return fail("roundtrip_mismatch", "parser", fmt.Sprintf("%d/direct/0", mi), fmt.Sprintf("the parser returned a different proof hash %d", i))
+						}
+					}
+					if heldCP != nil && (!bytes.Equal(heldCP, heldWant.CP) || len(heldProof) != len(heldWant.Proof)) {
+						return fail("roundtrip_mismatch", "result_changed_by_later_parse", fmt.Sprintf("%d/direct/0", mi), fmt.Sprintf("the checkpoint returned for body %d (%d bytes) changed when body %d was parsed: it now reads %s", mi-1, len(heldWant.CP), mi, short(heldCP)))
+					}
+					for i := range heldProof {
+						if !bytes.Equal(heldProof[i], heldWant.Proof[i]) {
+							return fail("roundtrip_mismatch", "result_changed_by_later_parse", fmt.Sprintf("%d/direct/0", mi), fmt.Sprintf("proof hash %d returned for body %d changed when body %d was parsed", i, mi-1, mi))
+						}
+					}
+					heldCP, heldProof, heldWant = pc, pp, m
+					if heldCP == nil {
+						heldCP = []byte{}
+					}
 				}
 				// intact, under three chunkings
 				for ci, mc := range []int{1, 7, 4096} {
@@ -957,6 +1035,10 @@ func c03ViaBastion(t *testing.T, p *Plan) *Outcome {
 // pushed back), an honest update sent after two token periods of silence - when no limiter of the configured rate can be
 // short of a token, since pushed-back requests use up nothing - is answered 200.
 func c08ViaBastion(t *testing.T, p *Plan) *Outcome {
+	return endpointProbes(t, p, "honest_update_refused", "honest_update_refused/via_endpoint")
+}
+
+func endpointProbes(t *testing.T, p *Plan, cls, sig string) *Outcome {
 	out := &Outcome{Stats: newStats()}
 	r := c10Exec(t, p)
 	if r.infra != "" {
@@ -964,6 +1046,11 @@ func c08ViaBastion(t *testing.T, p *Plan) *Outcome {
 		return out
 	}
 	from := int(p.Cfg.Extra["probe_from"])
+	for _, q := range r.reqs {
+		if q.Fault != "" {
+			out.Stats.Fired["storage_fault_while_serving/"+q.Fault]++
+		}
+	}
 	n := 0
 	for i, op := range p.Ops {
 		if op.K == "jump" {
@@ -976,7 +1063,7 @@ func c08ViaBastion(t *testing.T, p *Plan) *Outcome {
 				out.Stats.Probes["honest_probes_through_endpoint"]++
 				out.Distinct = append(out.Distinct, fmt.Sprintf("endpoint_probe/%d", q.Status))
 				if q.Status != 200 {
-					out.Viol = append(out.Viol, Violation{Class: "honest_update_refused", Sig: fmt.Sprintf("honest_update_refused/via_endpoint/status=%d", q.Status), OpIdx: i,
+					out.Viol = append(out.Viol, Violation{Class: cls, Sig: fmt.Sprintf("%s/status=%d", sig, q.Status), OpIdx: i,
 						Detail: fmt.Sprintf("an honest update (%s; stored {%s}) sent through the endpoint after at least two token periods of silence at a configured rate of %v/s was answered %d", q.Req.Desc, cpBrief(q.St), r.rate, q.Status)})
 				}
 			}
